@@ -84,8 +84,20 @@ def gen_cases_for(seed_, n):
             elif r < 0.86:
                 ops.append({"op": "failing", "input": rng.choice(sorted(have)), "fw": fw, "flat": flat,
                             "how": rng.choice(["failpoint", "failpoint", "field_data"]), "at": rng.randint(1, 60)})
-            elif r < 0.90:
+            elif r < 0.88:
                 ops.append({"op": "gen_other_unicode", "input": k, "fw": fw, "flat": flat})
+            elif r < 0.90:
+                # one MetadataGenerator object kept for several documents; generator objects asked to generate() twice
+                if rng.random() < 0.5:
+                    ops.append({"op": "direct_twice", "input": k, "fw": fw, "flat": flat})
+                    have.add(k)
+                else:
+                    for k2 in range(len(inputs)):
+                        ops.append({"op": "gen_shared_generator", "input": k2, "fw": fw, "flat": True, "reg": inputs[0]["registry"]})
+                    # ... then a document with the same keys whose strings belong to a narrower class (float -> int, datetime -> date)
+                    ops.append({"op": "gen_shared_generator", "input": rng.randrange(len(inputs)), "fw": fw, "flat": True, "reg": inputs[0]["registry"], "variant": "narrow"})
+                    ops.append({"op": "gen_shared_generator", "input": 0, "fw": fw, "flat": True, "reg": inputs[0]["registry"]})
+                    have.update(range(len(inputs)))
             elif r < 0.94:
                 # a generation that passes a types_style override (library-only option), then the same framework without it
                 ops.append({"op": "styled", "input": k, "fw": fw, "flat": flat, "style": rng.choice(["no_literals", "actual_type", "both"])})
@@ -142,7 +154,7 @@ def gen_cases_for(seed_, n):
             continue
         if not any(o["op"] in ("failing", "rerender") for o in ops):
             ops.insert(1, {"op": "failing", "input": sorted(have)[0], "fw": "pydantic", "flat": False, "how": "failpoint", "at": rng.randint(1, 40)})
-            ops = ops[:4] if len(ops) > 4 else ops
+            ops = ops[:4] if len(ops) > 4 and not any(o["op"] == "gen_shared_generator" for o in ops) else ops
         cases.append({"i": i, "inputs": inputs, "ops": ops})
     return cases
 
@@ -154,6 +166,23 @@ def _opts(inp, fw, flat, unicode_flip=False):
     return {"framework": fw, "flat": flat, "merge": inp["merge"], "max_literals": inp["max_literals"],
             "convert_unicode": inp["convert_unicode"] != unicode_flip, "registry": inp["registry"], "dkf": [], "dkr": [],
             "post_init_converters": False, "meta": False}
+
+
+def narrow(v):
+    """the same document with every string replaced by one of a narrower pseudo-type class (what an earlier class also accepts)"""
+    import re
+    if isinstance(v, dict):
+        return {k: narrow(x) for k, x in v.items()}
+    if isinstance(v, list):
+        return [narrow(x) for x in v]
+    if isinstance(v, str):
+        if re.fullmatch(r"\s*[-+]?(\d+\.\d*|\.\d+|\d+[eE][-+]?\d+|nan|inf|-Infinity)\s*", v):
+            return "7"
+        if re.fullmatch(r"\d{4}-\d\d-\d\dT.*", v):
+            return "2018-01-02"
+        if re.fullmatch(r"\d\d:\d\d(:\d\d)?(\.\d+)?.*", v):
+            return "2018-01-03"
+    return v
 
 
 class Failpoint:
@@ -205,6 +234,31 @@ def exec_op(state, inputs, op):
             if not o["flat"] and not driver.is_tree(run.registry):
                 res["outside_claim"] = True  # nested layout is claimed for tree-shaped graphs only: executed, not judged
             return res
+        if kind == "gen_shared_generator":
+            inp = inputs[op["input"]]
+            o = dict(_opts(inp, op["fw"], op["flat"]), registry=op.get("reg") or inp["registry"])
+            key = ("shared", tuple(o["registry"]))
+            samples = narrow(inp["samples"]) if op.get("variant") == "narrow" else inp["samples"]
+            run = driver.infer([(inp["name"], samples)], o, shared=state.get(key))
+            state.setdefault(key, run)
+            res = {"text": driver.render(run, o)}
+            if not o["flat"] and not driver.is_tree(run.registry):
+                res["outside_claim"] = True
+            return res
+        if kind == "direct_twice":
+            inp = inputs[op["input"]]
+            o = _opts(inp, op["fw"], True)
+            run = state.get(op["input"])
+            if run is None:
+                run = state[op["input"]] = driver.infer([(inp["name"], inp["samples"])], o)
+            gens = [driver.FW[op["fw"]](m, **driver.generator_kwargs(o)) for m in run.registry.models]
+            out = []
+            for rnd in range(1 if op.get("alone") else 2):
+                out = []
+                for g in gens:
+                    imports, text = g.generate()
+                    out.append([sorted(map(repr, imports)), text])
+            return {"text": json.dumps(out)}
         if kind == "rerender":
             inp = inputs[op["input"]]
             o = _opts(inp, op["fw"], op["flat"])
@@ -508,6 +562,11 @@ def run_case(case):
         if op["op"] == "direct_interleaved":
             ref_op["alone"] = True  # the same generators without the other set alive
             cnt["direct_calls"] += 1
+        if op["op"] == "direct_twice":
+            ref_op["alone"] = True  # generate() once
+            cnt["direct_calls"] += 1
+        if op["op"] == "gen_shared_generator":
+            cnt["shared_generator_ops"] = cnt.get("shared_generator_ops", 0) + 1
         key = digest([inputs[op["input"]] if "input" in op else None, ref_op])
         ref = REF_CACHE.get(key)
         if ref is None:
